@@ -1,10 +1,19 @@
 """C07 — optional / variant / expected track the std types: case generators and configuration."""
 import itertools
+import os
 
 ID = "C07"
 LEVEL = "proof"
+# harness.cpp is compiled in 8 parts, 4 at a time (props/C07/pcxx.py): ~25 s instead of ~55 s after a change of /repo/include
 HARNESSES = [{"name": "main", "src": "harness.cpp",
-              "flags": ["-std=c++2b", "-O1", "-fno-lifetime-dse", "-DTETL_ENABLE_CONTRACT_CHECKS=1"]}]
+              "compiler": os.path.join(os.path.dirname(os.path.abspath(__file__)), "pcxx.py"),
+              "flags": ["-std=c++2b", "-O1", "-fno-lifetime-dse", "-DTETL_ENABLE_CONTRACT_CHECKS=1", "-DC07_NPARTS=8"]},
+             # ASan+UBSan build of the same harness (thorough tier; also picked up by C02's aggregated sanitizer run).
+             # -O0: the instrumented -O1 build costs ~6 CPU-minutes, -O0 ~2.5
+             {"name": "asan", "src": "harness.cpp", "thorough_only": True,
+              "compiler": os.path.join(os.path.dirname(os.path.abspath(__file__)), "pcxx.py"),
+              "flags": ["-std=c++2b", "-O0", "-fno-lifetime-dse", "-fsanitize=address,undefined",
+                        "-fno-sanitize-recover=all", "-DTETL_ENABLE_CONTRACT_CHECKS=1", "-DC07_NPARTS=8"]}]
 
 RULE = ("a case is a whole operation history on two objects a,b (plus an optional<U>/unexpected<E2> c); exhaustive: "
         "every history of depth <= 2 over the FULL op alphabet (all alternatives x 3 values x emplace/in_place by index "
@@ -25,6 +34,7 @@ TRUSTED_BASE = ["reference leg: libstdc++ 12 std::variant / std::optional / std:
 ASSUMPTIONS = ["LP64; char is signed; g++ 12 overload resolution and narrowing rules as the reference for the alternative selection"]
 
 # type ids shared with harness and Coq: 0 bool 1 char 2 short 3 int 4 long 5 float 6 double 7 Tracked 8 Tracked2
+# 10 char const* (source only) 11 Str (class constructible from char const*)
 SETS = {
     "A": [3, 5],
     "B": [3, 7, 5],
@@ -33,7 +43,11 @@ SETS = {
     "E": [0, 7],
     "F": [1, 7, 6],
     "G": [5, 4],
+    "H": [0, 11],
+    "I": [11, 7, 0],
 }
+
+SRC_IDS = [0, 1, 2, 3, 4, 5, 6, 7, 8, 10, 11]
 
 
 def dom(ty):
@@ -59,7 +73,7 @@ def var_full(alts):
             for v in sorted(set(dom(ty))):
                 for opc in "ETIYL":
                     out.append(step(opc, t, i, v))
-        for s in range(9):
+        for s in SRC_IDS:
             for v in sorted(set(dom(s)))[:2]:
                 out.append(step("V", t, s, v))
                 out.append(step("W", t, s, v))
@@ -165,6 +179,55 @@ def ref_full():
         for opc in "nrcmkf":
             out.append(step(opc, t))
     out.append(step("s"))
+    for c in (0, 1, 2):
+        out.append(step("W", 0, c, 7))
+    return out
+
+
+def cref_full():
+    """optional<T const&>: no write-through; referents change behind the optional (W), the converting constructor
+    from a const optional<T> source (o direct-, i copy-initialisation) and from an optional<T&> (x)"""
+    out = []
+    for t in (0, 1):
+        for c in (0, 1, 2):
+            out.append(step("a", t, c))
+        out.append(step("e", t, 1))
+        out.append(step("j", t, 2))
+        for opc in "nrcmkfoixOXqQyY":
+            out.append(step(opc, t))
+    out.append(step("s"))
+    for c in (0, 1, 2):
+        out.append(step("W", 0, c, 7))
+    out += [step("z", 0, 0), step("z", 0, 2), step("Z"), step("S", 0, 0, 5), step("S", 0, 0, 6), step("E", 0, 0, 8),
+            step("R")]
+    return out
+
+
+def bref_full():
+    """optional<Base&> next to optional<Derived&> z (Base at a non-zero offset in Derived): write-through, conversions from z"""
+    out = []
+    for t in (0, 1):
+        for c in (0, 1, 2):
+            out.append(step("a", t, c))
+        out.append(step("e", t, 1))
+        out.append(step("j", t, 2))
+        out.append(step("w", t, 0, 5))
+        for opc in "nrcmkfxXyY":
+            out.append(step(opc, t))
+    out.append(step("s"))
+    for c in (0, 1, 2):
+        out.append(step("W", 0, c, 7))
+    out += [step("z", 0, 0), step("z", 0, 2), step("Z")]
+    return out
+
+
+def cref_core():
+    out = []
+    for t in (0, 1):
+        out.append(step("a", t, 0))
+        for opc in "ncoxQy":
+            out.append(step(opc, t))
+    out += [step("s"), step("W", 0, 0, 7), step("z", 0, 1), step("Z"), step("S", 0, 0, 5), step("E", 0, 0, 6), step("R")]
     return out
 
 
@@ -288,6 +351,42 @@ def gen(tier, rng):
                     out.append(line(op, h))
         for _ in range(nrand):
             out.append(line(op, rand_hist(rng, full, 3, 10)))
+    for op in ("cref.i", "cref.t"):
+        full = cref_full()
+        core = cref_core()
+        out.append(line(op, []))
+        if not search:
+            for h in histories(full, 2):
+                out.append(line(op, h))
+            for h in exact(core, 3):
+                out.append(line(op, h))
+            if not quick:
+                for h in exact(core, 4):
+                    out.append(line(op, h))
+        for _ in range(nrand):
+            out.append(line(op, rand_hist(rng, full, 3, 10)))
+        for _ in range(nrand):
+            out.append(line(op, rand_hist(rng, core, 4, 12)))
+    full = bref_full()
+    out.append(line("bref.d", []))
+    if not search:
+        for h in histories(full, 2):
+            out.append(line("bref.d", h))
+    for _ in range(nrand):
+        out.append(line("bref.d", rand_hist(rng, full, 3, 10)))
+    full = cref_full()
+    core = cref_core()
+    out.append(line("cbref.d", []))
+    if not search:
+        for h in histories(full, 2):
+            out.append(line("cbref.d", h))
+        if not quick:
+            for h in exact(core, 3):
+                out.append(line("cbref.d", h))
+    for _ in range(nrand):
+        out.append(line("cbref.d", rand_hist(rng, full, 3, 10)))
+    for _ in range(nrand):
+        out.append(line("cbref.d", rand_hist(rng, core, 4, 12)))
     # ---------------- visit dispatcher: every size tuple in {1..4}^k, k<=3, every active tuple
     for k in (1, 2, 3):
         for sizes in itertools.product((1, 2, 3, 4), repeat=k):
